@@ -1,9 +1,165 @@
 // C06 correspondence harness: misuse classification of a private MemoryLeakDetector (see h_c04_util.h).
 // Adds to the C04 operations: write (one byte into the user or guard bytes), invalidate, typecheck,
 // setcur and the real release/acquire overloads (gnew/gdelete/gnewarray/gdeletearray/gmalloc/gfree).
+//
+// C06's own additions (this file):
+//  * the complete text handed to MemoryLeakFailure::fail is printed (`failtext <hex>`), not only its parsed fields;
+//  * two more allocator objects in the registry: 15 = NullUnknownAllocator::defaultAllocator(), 16 = a CrashOnAllocationAllocator;
+//  * operations
+//      mlaalloc <13|14> <label> <slot> <size> <file> <line>     MemoryLeakAllocator::alloc_memory (forwards to the global detector)
+//      mlafree  <13|14> <label|null|@addr> <delta> <file> <line> MemoryLeakAllocator::free_memory
+//      nullfree <label|null|@addr> <delta> <file> <line> <sep>   deallocMemory through the NullUnknownAllocator
+//      nullalloc <size> <file> <line> <sep>                      allocMemory through the NullUnknownAllocator
+//      crashon <n>                                               CrashOnAllocationAllocator::setNumberToCrashOn
+//      setcurx new|newarray|malloc 16                            the crash allocator becomes a current allocator (printed as `setcur`)
+//    every other line is executed by the shared code, one operation at a time.
 #include "h_c04_util.h"
+#include "CppUTest/Utest.h"
 
-static void run_case(const vh::Case& c) { ld::run_case(c, true); }
+namespace c6 {
+
+static void crash_hook() { ld::logf("crashcall"); }
+
+struct Reporter6 : public MemoryLeakFailure {
+    ld::Harness* h;
+    Reporter6() : h(0) {}
+    // nothing here allocates (the overloads may be routed to the detector under test)
+    void fail(char* s) CPPUTEST_OVERRIDE {
+        size_t n = strlen(s);
+        size_t seen = h->reporter.seen;
+        const char* m = n >= seen ? s + seen : s;
+        static char text[1024]; size_t k = strlen(m); bool toolong = k > 900;
+        if (!toolong) memcpy(text, m, k + 1);
+        size_t before = ld::g_loglen;
+        h->reporter.fail(s);                       // parsed fields (`fail <kind> ...`), as C04 prints them
+        const char* logged = ld::g_log + before;
+        if (strncmp(logged, "fail lost", 9) == 0 || strncmp(logged, "fail unparsed", 13) == 0) return;
+        if (toolong) { ld::logf("failtext toolong"); return; }
+        if (strstr(text, "MemoryLeakDetector.cpp line:")) return;      // stage release: __FILE__ is a build path
+        static char hx[2 * 1024 + 8];
+        ld::hexinto(hx, (const unsigned char*) text, k);
+        ld::logf("failtext %s", hx);
+    }
+};
+
+struct H6 : public ld::Harness {
+    Reporter6 rep6;
+    CrashOnAllocationAllocator* crash;
+    int nullIndex, crashIndex;
+    H6() : ld::Harness(true), crash(0), nullIndex(-1), crashIndex(-1) {}
+
+    void init6() {
+        init();
+        // the detector under test reports through rep6 (which prints the text and then does what C04's reporter does)
+        rep6.h = this;
+        delete det;
+        det = new MemoryLeakDetector(&rep6);
+        nullIndex = (int) allocs.size(); add(NullUnknownAllocator::defaultAllocator(), false, -1, false);     // 15
+        crash = new CrashOnAllocationAllocator();
+        crashIndex = (int) allocs.size(); add(crash, false, -1, false);                                        // 16
+        UtestShell::setCrashMethod(crash_hook);
+    }
+
+    void global_det_on() { MemoryLeakWarningPlugin::setGlobalDetector(det, &reporter); ld::g_in_det = true; }
+    void global_det_off() { ld::g_in_det = false; MemoryLeakWarningPlugin::setGlobalDetector(sink, &sinkReporter); }
+
+    bool own_op(const vh::Words& w) {
+        const std::string& o = w[0];
+        ld::g_loglen = 0; ld::g_log[0] = 0; ld::g_pending = -1; ld::g_pending_null = false;
+        if (o == "mlaalloc" && w.size() >= 7) {
+            int ai = atoi(w[1].c_str()); size_t size = (size_t) vh::to_u64(w[4]); int slot = -1;
+            if (!((ai == 13 || ai == 14) && w[1].size() == 2) || !slot_ok(w[3], size, slot) || !line_ok(w[6])) { vh::emit("> skip"); return true; }
+            vh::emit("> mlaalloc %d %lu %s %lu", ai, (unsigned long) size, w[5].c_str(), (unsigned long) vh::to_u64(w[6]));
+            ld::g_pending = slot; set_print_sizes(ai); ld::g_usersize[slot] = size; ld::g_raw_free = true;
+            global_det_on();
+            char* p = allocs[ai].a->alloc_memory(size, w[5].c_str(), (size_t) vh::to_u64(w[6]));
+            global_det_off();
+            ld::g_raw_free = false;
+            if (p) { ld::Label l; l.addr = ld::addr_of(p); l.size = size; labels[w[2]] = l; if (ld::slot_base(p)) ld::g_usersize[ld::slot_of(p)] = size; fill_user(p, size); track(p); }
+            ld::logf("ret %lu", ld::addr_of(p));
+            flush(); totals();
+            return true;
+        }
+        if (o == "mlafree" && w.size() >= 6) {
+            int ai = atoi(w[1].c_str()); unsigned long addr;
+            if (!((ai == 13 || ai == 14) && w[1].size() == 2) || !resolve(w[2], w[3], addr) || !line_ok(w[5])) { vh::emit("> skip"); return true; }
+            vh::emit("> mlafree %d %lu %s %lu", ai, addr, w[4].c_str(), (unsigned long) vh::to_u64(w[5]));
+            clear_text(); set_print_sizes(ai);
+            global_det_on();
+            allocs[ai].a->free_memory(ld::ptr_of(addr), 0, w[4].c_str(), (size_t) vh::to_u64(w[5]));
+            global_det_off();
+            flush(); totals();
+            return true;
+        }
+        if (o == "nullfree" && w.size() >= 6) {
+            unsigned long addr; bool sep = w[5] == "1";
+            if (!resolve(w[1], w[2], addr) || !line_ok(w[4])) { vh::emit("> skip"); return true; }
+            vh::emit("> nullfree %lu %s %lu %d", addr, w[3].c_str(), (unsigned long) vh::to_u64(w[4]), sep ? 1 : 0);
+            clear_text(); ld::g_print_sizes = false;
+            unsigned long before = (unsigned long) det->totalMemoryLeaks(mem_leak_period_all);
+            ld::g_in_det = true;
+            det->deallocMemory(allocs[nullIndex].a, ld::ptr_of(addr), w[3].c_str(), (size_t) vh::to_u64(w[4]), sep);
+            ld::g_in_det = false;
+            // the record is gone but the block was not handed back: the client still owns it (it may `drop` it)
+            char* p = ld::ptr_of(addr);
+            if (p && ld::slot_base(p) && ld::g_live[ld::slot_of(p)] && (unsigned long) det->totalMemoryLeaks(mem_leak_period_all) < before)
+                ld::g_tracked[ld::slot_of(p)] = false;
+            flush(); totals();
+            return true;
+        }
+        if (o == "nullalloc" && w.size() >= 5) {
+            size_t size = (size_t) vh::to_u64(w[1]); bool sep = w[4] == "1";
+            if (!line_ok(w[3]) || w[1].size() > 18) { vh::emit("> skip"); return true; }
+            vh::emit("> nullalloc %lu %s %lu %d", (unsigned long) size, w[2].c_str(), (unsigned long) vh::to_u64(w[3]), sep ? 1 : 0);
+            ld::g_in_det = true;
+            char* p = det->allocMemory(allocs[nullIndex].a, size, w[2].c_str(), (size_t) vh::to_u64(w[3]), sep);
+            ld::g_in_det = false;
+            ld::logf("ret %lu", ld::addr_of(p));
+            flush(); totals();
+            return true;
+        }
+        if (o == "crashon" && w.size() >= 2 && w[1].size() <= 9) {
+            vh::emit("> crashon %lu", (unsigned long) vh::to_u64(w[1]));
+            crash->setNumberToCrashOn((unsigned) vh::to_u64(w[1]));
+            totals();
+            return true;
+        }
+        if (o == "setcurx" && w.size() >= 3) {
+            if (atoi(w[2].c_str()) != crashIndex || mrp) { vh::emit("> skip"); return true; }
+            if (w[1] == "new") setCurrentNewAllocator(crash);
+            else if (w[1] == "newarray") setCurrentNewArrayAllocator(crash);
+            else if (w[1] == "malloc") setCurrentMallocAllocator(crash);
+            else { vh::emit("> skip"); return true; }
+            vh::emit("> setcur %s %d", w[1].c_str(), crashIndex);
+            totals();
+            return true;
+        }
+        return false;
+    }
+
+    void run6(const vh::Case& c) {
+        for (size_t i = 0; i < c.ops.size(); i++) {
+            const vh::Words& w = c.ops[i];
+            if (own_op(w)) continue;
+            if (w[0] == "setup" && i != 0) { vh::emit("> skip"); continue; }
+            if (w[0] == "mrp" && crash && (getCurrentNewAllocator() == crash || getCurrentNewArrayAllocator() == crash || getCurrentMallocAllocator() == crash)) {
+                vh::emit("> skip"); continue;          // the report plugin around the crash allocator is not part of this check
+            }
+            // the detector keeps the file-name pointers of the operation words: the one-operation case must outlive the run
+            vh::Case* one = new vh::Case(); one->id = c.id; one->ops.push_back(w);
+            run(*one);
+            if (w[0] == "setup" && w.size() == 1 && i == 0) vh::emit("special null %d crash %d", nullIndex, crashIndex);
+        }
+    }
+};
+
+} // namespace c6
+
+static void run_case(const vh::Case& c) {
+    c6::H6* h = new c6::H6();
+    h->init6();
+    h->run6(c);
+}
 
 int main() {
     // the harness process itself must not depend on the code under test: no leak tracking of its own allocations
